@@ -104,7 +104,21 @@ fn exploded(p: &Plain, originals_last: bool) -> lax::OpenHypergraph<L, L> {
         }
     }
     f.sources = p.s.iter().map(|v| orig[*v]).collect();
-    f.targets = p.t.iter().map(|v| orig[*v]).collect();
+    // every output position sits on a twin of its node, unified with it (pending): an edge-less
+    // diagram handed over this way is "id ; id" before quotienting, not a quotient-free wiring
+    f.targets = p
+        .t
+        .iter()
+        .map(|v| {
+            let twin = f.new_node(p.w[*v]);
+            if originals_last {
+                f.unify(twin, orig[*v]);
+            } else {
+                f.unify(orig[*v], twin);
+            }
+            twin
+        })
+        .collect();
     f
 }
 impl lax::functor::Functor<L, L, L, L> for LaxSpec {
@@ -277,7 +291,7 @@ impl Check for C12 {
         out
     }
     fn rule() -> &'static str {
-        "Each run draws a composable pair (f,g) of small well-formed diagrams (<= ~6 nodes, <= 3 hyperedges; non-monogamous, cyclic, isolated nodes, zero-arity operations included), two object lists and a functor spec: object map generator -> list of length 1 / 0-1 / 0-3 over 1-3 target labels, operation map per label one of {single operation, composite of two operations, spider-only, empty-when-possible}. A harness-defined strict::Functor<K,..> generic in the device applies it on sim/control, vec and 1-2 perturbed schedules; the lax trait runs through dyn_functor on the Vec device, once with strict images and argument and once with images and argument that still carry pending unifications (every hyperedge on fresh nodes unified with the original ones, in two node orders); the native lax entry points try_define_map_arrow (strict and pending images) and map_arrow_witness (diagram component) are applied to the quotient-free argument and must be present and isomorphic to the same substitution. Oracle: F(f) isomorphic to the reference substitution (node -> list, hyperedge -> image glued along expanded ports), hence the type; F(f;g) ≅ Ff;Fg, F(f⊗g) ≅ Ff⊗Fg, F(id) ≅ id, F(twist) ≅ twist, F(f†) ≅ (Ff)†, Identity functor ≅ argument. Non-trivial iff f has a node; distinct = distinct (workload fingerprint, device decision fingerprint)."
+        "Each run draws a composable pair (f,g) of small well-formed diagrams (<= ~6 nodes, <= 3 hyperedges; non-monogamous, cyclic, isolated nodes, zero-arity operations included), two object lists and a functor spec: object map generator -> list of length 1 / 0-1 / 0-3 over 1-3 target labels, operation map per label one of {single operation, composite of two operations, spider-only, empty-when-possible}. A harness-defined strict::Functor<K,..> generic in the device applies it on sim/control, vec and 1-2 perturbed schedules; the lax trait runs through dyn_functor on the Vec device, once with strict images and argument and once with images and argument that still carry pending unifications (every hyperedge on fresh nodes unified with the original ones and every output position on a twin node unified with its node, in two node orders); the native lax entry points try_define_map_arrow (strict and pending images) and map_arrow_witness (diagram component) are applied to the quotient-free argument and must be present and isomorphic to the same substitution. Oracle: F(f) isomorphic to the reference substitution (node -> list, hyperedge -> image glued along expanded ports), hence the type; F(f;g) ≅ Ff;Fg, F(f⊗g) ≅ Ff⊗Fg, F(id) ≅ id, F(twist) ≅ twist, F(f†) ≅ (Ff)†, Identity functor ≅ argument. Non-trivial iff f has a node; distinct = distinct (workload fingerprint, device decision fingerprint)."
     }
     fn assumptions() -> Vec<&'static str> {
         vec![
